@@ -51,3 +51,6 @@ package asa
 
 // ---- C16 ----
 //vc:maprange[C16] isValidOutput 1 "for prefix, re := range validOutput" first-match existential test (any matching table entry makes the line valid); the result is a disjunction over all entries
+
+// text handed to the device, a file or a log is never interpreted as a printf format
+//vc:constformat[C01,C02]
